@@ -148,7 +148,10 @@ fn exercise_inner(bytes: &[u8]) -> Result<Report, String> {
         rep.opened = true;
         rep.entries = za.len();
         // the budget now only protects against runaway loops in later calls
-        st.fail_at.store(st.count() + 64 * ops_bound(len), std::sync::atomic::Ordering::Relaxed);
+        // entry access legitimately needs at most ~len/5 calls per entry and mode (5-byte reads of stored data) -
+        // about 13 x len for 64 entries; 1024 x len + 2 million leaves two orders of magnitude of head-room and
+        // keeps a runaway loop cheap to diagnose (the stream fails every call from there on)
+        st.fail_at.store(st.count() + 1024 * len + 2_000_000, std::sync::atomic::Ordering::Relaxed);
         catch(|| {
             let _ = (za.len(), za.is_empty(), za.comment().len(), za.offset());
             let names: Vec<String> = za.file_names().take(64).map(|s| s.to_string()).collect();
